@@ -12,11 +12,12 @@ structure Fr (r r' : R) : Prop where
   tags : r'.tags = r.tags
   pos : r'.pos = r.pos
   len : r'.rest.length ≤ r.rest.length
+  parsed : r'.parsed = r.parsed
 
-theorem Fr.refl (r : R) : Fr r r := ⟨rfl, rfl, Nat.le_refl _⟩
-theorem Fr.trans {a b c : R} (h1 : Fr a b) (h2 : Fr b c) : Fr a c := ⟨h2.tags.trans h1.tags, h2.pos.trans h1.pos, Nat.le_trans h2.len h1.len⟩
-theorem Fr.upd {r r1 : R} (h : Fr r r1) (f : Rec → Rec) : Fr r (r1.upd f) := ⟨h.tags, h.pos, h.len⟩
-theorem Fr.addAlloc {r r1 : R} (h : Fr r r1) (n : Nat) : Fr r (r1.addAlloc n) := ⟨h.tags, h.pos, h.len⟩
+theorem Fr.refl (r : R) : Fr r r := ⟨rfl, rfl, Nat.le_refl _, rfl⟩
+theorem Fr.trans {a b c : R} (h1 : Fr a b) (h2 : Fr b c) : Fr a c := ⟨h2.tags.trans h1.tags, h2.pos.trans h1.pos, Nat.le_trans h2.len h1.len, h2.parsed.trans h1.parsed⟩
+theorem Fr.upd {r r1 : R} (h : Fr r r1) (f : Rec → Rec) : Fr r (r1.upd f) := ⟨h.tags, h.pos, h.len, h.parsed⟩
+theorem Fr.addAlloc {r r1 : R} (h : Fr r r1) (n : Nat) : Fr r (r1.addAlloc n) := ⟨h.tags, h.pos, h.len, h.parsed⟩
 
 theorem Fr.discard (r : R) (n : Int) : Fr r (discard r n).1 := by
   unfold Exif.discard
@@ -25,17 +26,17 @@ theorem Fr.discard (r : R) (n : Int) : Fr r (discard r n).1 := by
   · dsimp only
     generalize (if (r.exifLength : Int) < n + r.po then (r.exifLength : Int) - r.po else n) = m
     repeat' split
-    all_goals first | exact Fr.refl _ | exact ⟨rfl, rfl, by simp⟩
+    all_goals first | exact Fr.refl _ | exact ⟨rfl, rfl, by simp, rfl⟩
 
 theorem Fr.fastRead (r : R) (n : Nat) : Fr r (fastRead r n).r := by
   unfold Exif.fastRead
   repeat' split
-  all_goals first | exact Fr.refl _ | exact ⟨rfl, rfl, by simp⟩
+  all_goals first | exact Fr.refl _ | exact ⟨rfl, rfl, by simp, rfl⟩
 
 theorem Fr.readTagValue0 (r : R) (t : Tag) : Fr r (readTagValue0 r t).r := by
   unfold Exif.readTagValue0
   simp only []
-  have h0 : Fr r (if t.isEmbedded then { r with hazard := true } else r) := by split <;> exact ⟨rfl, rfl, Nat.le_refl _⟩
+  have h0 : Fr r (if t.isEmbedded then { r with hazard := true } else r) := by split <;> exact ⟨rfl, rfl, Nat.le_refl _, rfl⟩
   generalize (if t.isEmbedded then { r with hazard := true } else r) = r0 at h0 ⊢
   have h1 := Fr.discard r0 ((t.off : Int) - r0.po)
   cases hd : Exif.discard r0 ((t.off : Int) - r0.po) with
@@ -47,7 +48,7 @@ theorem Fr.readTagValue0 (r : R) (t : Tag) : Fr r (readTagValue0 r t).r := by
 
 theorem Fr.readTagValue (r : R) (t : Tag) : Fr r (readTagValue r t).r := by
   have := Fr.readTagValue0 r t
-  exact ⟨this.tags, this.pos, this.len⟩
+  exact ⟨this.tags, this.pos, this.len, this.parsed⟩
 
 /-- a parser returning (state, value) keeps the frame -/
 def FrP {β} (x : Outcome (R × β)) (r : R) : Prop := ∀ r' v, x = .ok (r', v) → Fr r r'
@@ -57,7 +58,7 @@ def FrO (x : Outcome R) (r : R) : Prop := ∀ r', x = .ok r' → Fr r r'
 set_option hygiene false in
 macro "fr_leaves" : tactic => `(tactic|
   all_goals (first
-    | (simp only [Outcome.ok.injEq, Prod.mk.injEq] at h; obtain ⟨h1, _⟩ := h; subst h1; first | exact Fr.refl _ | assumption | exact ⟨rfl, rfl, Nat.le_refl _⟩ | (refine ⟨?_, ?_, ?_⟩ <;> simp_all [Fr.tags, Fr.pos, Fr.len]))
+    | (simp only [Outcome.ok.injEq, Prod.mk.injEq] at h; obtain ⟨h1, _⟩ := h; subst h1; first | exact Fr.refl _ | assumption | exact ⟨rfl, rfl, Nat.le_refl _, rfl⟩ | (refine ⟨?_, ?_, ?_, ?_⟩ <;> simp_all [Fr.tags, Fr.pos, Fr.len, Fr.parsed]))
     | (simp at h; done)))
 
 theorem FrP.parseBytes (r : R) (t : Tag) (s : Bool) : FrP (parseBytes r t s) r := by
@@ -75,7 +76,7 @@ theorem FrP.parseString (r : R) (t : Tag) : FrP (parseString r t) r := by
     obtain ⟨r1, s⟩ := p
     have := FrP.parseBytes r t false r1 s hb
     simp only [hb, bind, Outcome.bind, Outcome.ok.injEq, Prod.mk.injEq] at h
-    rw [← h.1]; exact ⟨this.tags, this.pos, this.len⟩
+    rw [← h.1]; exact ⟨this.tags, this.pos, this.len, this.parsed⟩
   | err k => simp [hb, bind, Outcome.bind] at h
   | panic p => simp [hb, bind, Outcome.bind] at h
   | fuel => simp [hb, bind, Outcome.bind] at h
@@ -264,11 +265,21 @@ theorem FrO.parseIfd0 (tb : Tables) (r : R) (t : Tag) : FrO (parseIfd0 tb r t) r
     · exact FrO.ok (Fr.upd (Fr.refl _) _)
     · exact FrO.ok (Fr.refl _)
 
-theorem FrO.parseTag (tb : Tables) (r : R) (t : Tag) : FrO (parseTag tb r t) r := by
-  unfold Exif.parseTag
+theorem FrO.parseTag0 (tb : Tables) (r : R) (t : Tag) : FrO (parseTag0 tb r t) r := by
+  unfold Exif.parseTag0
   have := FrO.parseIfd0 tb r t
   have := FrO.parseExifIfd r t
   have := FrO.parseGpsIfd r t
   repeat' (first | assumption | with_reducible apply FrO.ite | exact FrO.ok (Fr.refl _))
+
+/-- what the ghost wrapper does -/
+theorem parseTag_ok {tb : Tables} {r r' : R} {t : Tag} (h : parseTag tb r t = .ok r') :
+    ∃ r0, parseTag0 tb r t = .ok r0 ∧ r' = { r0 with parsed := r0.parsed ++ [t] } := by
+  unfold Exif.parseTag at h
+  cases hx : Exif.parseTag0 tb r t with
+  | ok r0 => rw [hx] at h; simp only [Outcome.bind, Outcome.ok.injEq] at h; exact ⟨r0, rfl, h.symm⟩
+  | err k => rw [hx] at h; simp [Outcome.bind] at h
+  | panic p => rw [hx] at h; simp [Outcome.bind] at h
+  | fuel => rw [hx] at h; simp [Outcome.bind] at h
 
 end Imeta.Exif
